@@ -241,7 +241,7 @@ func expected(before *gt.Node, perm map[string]string) (*gt.Node, []string) {
 var rec = ev.New("TestPropMatrixInterpolation", "command steps built as structs whose strings at every position (command, label, key, plugin sources, nested plugin config keys/values, env names and values, nested unknown-field keys/values in Go maps and ordered maps incl. maps of 9-30 keys, matrix definition, signature) mix plain text, valid tokens with white-space padding, tokens for dimensions not in the permutation, and near-miss look-alikes; dimension names over [A-Za-z0-9_.-] and the anonymous one; permutation values from S incl. token-shaped values; oracle = hand-written single-pass scanner applied at in-scope positions only; non-trivial = >= 2 positions with tokens and (a near-miss or a token-shaped value); distinct by hash of step and permutation")
 
 func TestPropMatrixInterpolation(t *testing.T) {
-	ev.Check(t, 20000, 100000, func(t *rapid.T) {
+	ev.Check(t, 20000, 600000, func(t *rapid.T) {
 		st := &caseStats{}
 		c := &ctx{t: t, stats: st}
 		// permutation
